@@ -3,6 +3,8 @@
 import ast
 import re
 
+from .core import PKG as PKG_
+
 from .core import (ftext, cnorm, closure_text, AnalysisError, dotted, norm, walk_local, const_int,
                    stmts_of, calls_in, call_name, kwarg, enclosing_stmt_map,
                    block_always_raises, raised_names, PKG, canon_exc)
@@ -22,8 +24,11 @@ FS_FUNC_CALLS = {"open", "gzip.open", "os.makedirs", "os.remove", "os.unlink",
 NET_ATTR_CALLS = {"get", "head", "raise_for_status"}
 
 
-def _io_sites(fn):
-    """[(call, effects, kind)] I/O-effect calls in a function."""
+def _io_sites(fn, _depth=0):
+    """[(call, effects, kind)] I/O-effect calls in a function.  A call of a
+    module-level function of the package has the effects of the I/O calls in
+    that function (followed two levels)."""
+    from .rules_more4 import resolve_pkg_call
     defs = local_defs(fn.node)
     gz_names = set()
     for name, ds in defs.items():
@@ -36,6 +41,21 @@ def _io_sites(fn):
     for c in calls_in(fn.node):
         nm = fn.module.resolve(call_name(c) or "") or ""
         f = c.func
+        if nm.startswith(PKG_ + "."):
+            h = resolve_pkg_call(fn, c)
+            if h is not None and h.cls is None and h.key != fn.key:
+                if _depth < 2:
+                    inner = _io_sites(h, _depth + 1)
+                    effs, kinds = [], set()
+                    for _, e_, k_ in inner:
+                        for x_ in e_:
+                            if x_ not in effs:
+                                effs.append(x_)
+                        kinds.add(k_)
+                    if effs:
+                        out.append((c, effs, "net" if kinds == {"net"}
+                                    else "fs"))
+                continue
         if nm in FS_FUNC_CALLS:
             out.append((c, ["OSError"], "fs"))
         elif isinstance(f, ast.Attribute) and f.attr in FS_ATTR_CALLS:
